@@ -254,14 +254,10 @@ Proof.
   all: try (destruct (mirror_overread c s a n n0 data); [discriminate | eapply Inv_bm_multiple; eauto]; fail).
   all: try (unfold cs_accessory_ack, cs_accessory_manual; destruct (dacc_ref c s a _ _) as [[? ?]|]; auto using Inv_upd_dacc; fail).
   all: try (unfold lc_stat, lc_wait; destruct (per_ref c s a _ _); auto; fail).
-  all: try (unfold boost_state; destruct (board_by_addr c s a) as [[? ?]|]; auto; destruct (is_booster _); auto; fail).
+  all: try (unfold boost_state, boost_diagnostic; destruct (board_by_addr c s a) as [[? ?]|]; auto; destruct (is_booster _); auto; fail).
   - (* cs_state *)
     unfold cs_state in H. destruct (board_by_addr _ _ _) as [[? ?]|]; [|inversion H; subst; auto].
     destruct (is_output _); [|inversion H; subst; auto]. destruct (_ <=? _); inversion H. auto.
-  - (* boost_diagnostic *)
-    unfold boost_diagnostic in H. destruct (board_by_addr _ _ _) as [[? ?]|]; [|inversion H; subst; auto].
-    destruct (is_booster _); [|inversion H; subst; auto]. destruct (nth_error _ _); [|inversion H; subst; auto].
-    destruct (diag_loop _ _); inversion H. auto.
   - (* accessory_state *)
     unfold accessory_state in H. destruct (bacc_ref _ _ _ _) as [[pt m]|]; [|inversion H; subst; auto].
     destruct (nth_error _ _); [|inversion H; subst; auto]. destruct (am_aspects m); [discriminate|].
@@ -511,3 +507,7 @@ Proof.
   - destruct (tr_on ts); auto. exfalso. apply Hon; auto.
   - apply Hon. discriminate.
 Qed.
+
+(* ------------------------------------------------------------------ lock structure facts generated from the source *)
+Lemma single_hold_all : forallb (fun b => b) single_hold_facts = true /\ length single_hold_facts = 7%nat.
+Proof. vm_compute. split; reflexivity. Qed.
